@@ -26,6 +26,7 @@ FAMILIES = {
     "rcu": {"src": "rcu.cpp"},
     "prims": {"src": "prims.cpp"},
     "tripwire": {"src": "tripwire.cpp"},
+    "deferred": {"src": "deferred.cpp"},
 }
 
 EXPLORATION_NOTE = ("Trusted base: the vrt runtime's model of std::mutex/timed_mutex/shared_mutex/shared_timed_mutex/condition_variable/atomic "
@@ -50,7 +51,8 @@ PROPS = {
         "text": "Generated reader/writer clients on shared_guarded, shared_guarded_opt, ordered_guarded (and deferred_guarded in its own stage) over four mutex types. The HB monitor and a live-handle "
                 "invariant decide 'readers and writers never overlap'; generated two-reader rendezvous pairs and the model mutex's ground truth decide 'readers can share'. Exploration only.",
         "assumptions": ["vrt shared-mutex model follows [thread.sharedmutex]", "programs bounded to 4 fibers x 4/6 operations"],
-        "stages": [{"family": "locks", "flavour": "plain", "target": "C02", "cases": (400000, 6000000), "maxsec": (40, 400)}],
+        "stages": [{"family": "locks", "flavour": "plain", "target": "C02", "cases": (400000, 6000000), "maxsec": (40, 400)},
+                   {"family": "deferred", "flavour": "plain", "target": "C02d", "cases": (300000, 4000000), "maxsec": (30, 300)}],
     },
     "C05": {
         "level": "exploration",
@@ -119,6 +121,16 @@ PROPS = {
         "assumptions": ["list destroyed only after all handles are released (as the property states)"],
         "stages": [{"family": "rcu", "flavour": "plain", "target": "C13", "cases": (500000, 6000000), "maxsec": (40, 400)}],
     },
+    "C06": {
+        "level": "exploration",
+        "technique": "property-based testing over (submitter/reader/drainer program x mutex type x schedule); oracle = exactly-once ledger per submitted function, exclusivity flags + happens-before monitor, real-time order check, quiescence check with futures",
+        "design_ref": "DESIGN.md §5 C06",
+        "text": "Generated submitters (modify_detach, modify_async with value/void/throwing functions), readers and try-readers run on deferred_guarded over all four mutex types; each function's execution "
+                "count, exclusivity, order against returned-before-called pairs, and the state after quiescence plus one lock_shared (all executed once, value = all bits, futures ready with value or "
+                "exception) are checked. Exploration only.",
+        "assumptions": ["real std::packaged_task/future objects are used but never blocked on (only inspected after quiescence)"],
+        "stages": [{"family": "deferred", "flavour": "plain", "target": "C06", "cases": (600000, 8000000), "maxsec": (40, 400)}],
+    },
     "C08": {
         "level": "exploration",
         "technique": "property-based testing over (wrapper config x enable flag x holder/contender program with handle life cycles x schedule and time-outs); oracle = model mutex ownership ground truth at every return, zero-mutex-ops in disabled mode, livelock detector for blocking try calls",
@@ -135,7 +147,8 @@ PROPS = {
         "text": "Generated load/store/assignment/exchange/compare_exchange histories on atomic_guarded and load/store/assignment on guarded, guarded_opt, ordered_guarded, deferred_guarded under generated "
                 "schedules; a Tracked payload makes torn copies observable. Exploration only.",
         "assumptions": ["values from a small domain", "2-4 fibers x <= 6 operations"],
-        "stages": [{"family": "locks", "flavour": "plain", "target": "C15g", "cases": (300000, 4000000), "maxsec": (40, 400)}],
+        "stages": [{"family": "locks", "flavour": "plain", "target": "C15g", "cases": (300000, 4000000), "maxsec": (40, 400)},
+                   {"family": "deferred", "flavour": "plain", "target": "C15d", "cases": (300000, 4000000), "maxsec": (30, 300)}],
     },
     "C03": {
         "level": "exploration",
